@@ -5,6 +5,7 @@
    Models: Aggregates.v (plain_aggregates, pointwise_aggregates as coded), Tentative.v,
    Coarsen.v (aggregation, smoothed_aggregation, ruge_stuben as coded). *)
 From Amgcl Require Import Scalar QcInst Vec Crs Kernels MatOps MatOps2 MatOps2Proofs Aggregates Tentative Coarsen CoarsenProofs.
+From Amgcl Require Import Qr QrMathRefl QrMathR TentativeQr TentativeQrProofs TentativeQrR EminProofs2.
 Local Open Scope S_scope.
 
 (* ---------------------------------------------------------------- 1. plain_aggregates (any S)
@@ -404,5 +405,165 @@ Example C04_rs_row_sum_nonvacuous :
       sltb (rs_eps (S:=QcS)) (sabs (fsum QcS (pAD QcS cf 2) r - fsum QcS (pDN QcS true cf 2 Amin) r)) = true /\
       sltb (sabs (fsum QcS (pBD QcS cf 2) r)) (rs_eps (S:=QcS)) = true
   | None => False
+  end.
+Proof. vm_compute. repeat split; reflexivity. Qed.
+
+(* ==================================================================== 6. near-null space with the PROVED QR
+   (TentativeQr.v: the model of tentative_prolongation.hpp:165-205 calling detail::QR<double>::factorize in
+   column-major order -- Qr.v, proved correct in QrMath*.v, C16).  The abstract QR oracle of section 2b is
+   instantiated with the code that is really called. *)
+
+(* the QR object is reused between aggregates (its vector q is resized, not cleared): the result does not
+   depend on what it holds, hence not on how OpenMP distributes the aggregates over threads (any S) *)
+Theorem C04_tentative_qr_schedule_independent (S : Scalar) bs cols naggr id (B : mat (S:=S)) (q0 : vec S) (qj : nat -> vec S) :
+  tentative_prolongation_qr bs cols naggr id B q0 = tentative_prolongation_qr_any bs cols naggr id B qj.
+Proof. exact (tentative_qr_schedule_independent bs cols naggr id B q0 qj). Qed.
+Print Assumptions C04_tentative_qr_schedule_independent.
+
+(* it is the oracle form of section 2b with the oracle qr_real (any S) *)
+Theorem C04_tentative_qr_is_oracle_form (S : Scalar) bs cols naggr id (B : mat (S:=S)) (q0 : vec S) :
+  tentative_prolongation_qr bs cols naggr id B q0 = tentative_prolongation_ns (qr_real cols) bs cols naggr id B.
+Proof. exact (tentative_qr_is_oracle_form bs cols naggr id B q0). Qed.
+Print Assumptions C04_tentative_qr_is_oracle_form.
+
+(* hypotheses: those of C16_qr_factorize_correct (field, adjoint = identity, |x|^2 = x^2, a root and
+   "y + x^2 = 0 => y = 0" on sums of squares); guard: every aggregate has at least [cols] rows, which the
+   code enforces by passing min_aggregate = nullspace.cols to the aggregation (remove_small_aggregates) *)
+Section NullSpaceQR.
+Variable S : Scalar.
+Hypothesis Sft : Sfield S.
+Hypothesis Seqb : seqb_spec S.
+Hypothesis Hadj : forall x : S, sadj x = x.
+Hypothesis Habs : forall x : S, sabs x * sabs x = x * x.
+Hypothesis Hsqrt : forall y : S, sos y -> ssqrt y * ssqrt y = y.
+Hypothesis Hreal : forall y x : S, sos y -> y + x * x = s0 -> y = s0.
+
+(* P_tent * B_coarse = B on aggregated rows: the supplied near-null-space vectors are reproduced exactly *)
+Theorem C04_tentative_qr_reproduces (bs cols naggr : nat) (id : list Z) (B : mat (S:=S)) (q0 : vec S) k c :
+  0 < cols -> c < cols -> k < length id -> (0 <= zget id k)%Z ->
+  let i := Nat.div (Z.to_nat (zget id k)) bs in
+  i < Nat.div naggr bs ->
+  cols <= length (members bs id i) ->
+  let PB := tentative_prolongation_qr bs cols naggr id B q0 in
+  ns_apply S cols (snd PB) (nth k (rows (fst PB)) []) c = mentry B k c.
+Proof. exact (tentative_qr_reproduces S Sft Seqb Hadj Habs Hsqrt Hreal bs cols naggr id B q0 k c). Qed.
+
+(* P_tent^T P_tent = I: orthonormal columns *)
+Theorem C04_tentative_qr_orthonormal (bs cols naggr : nat) (id : list Z) (B : mat (S:=S)) (q0 : vec S) :
+  (forall i, i < Nat.div naggr bs -> cols <= length (members bs id i)) ->
+  let P := fst (tentative_prolongation_qr bs cols naggr id B q0) in
+  forall j1 j2, j1 < ncols P -> j2 < ncols P ->
+    sumn (fun k => mget P k j1 * mget P k j2) (nrows P) = if Nat.eqb j1 j2 then s1 else s0.
+Proof. exact (tentative_qr_orthonormal S Sft Seqb Hadj Habs Hsqrt Hreal bs cols naggr id B q0). Qed.
+
+(* every cols x cols block of the coarse near-null space is upper triangular *)
+Theorem C04_tentative_qr_coarse_upper (bs cols naggr : nat) (id : list Z) (B : mat (S:=S)) (q0 : vec S) :
+  (forall i, i < Nat.div naggr bs -> cols <= length (members bs id i)) ->
+  forall i r c, i < Nat.div naggr bs -> r < cols -> c < r ->
+    mentry (nth i (snd (tentative_prolongation_qr bs cols naggr id B q0)) []) r c = s0.
+Proof. exact (tentative_qr_coarse_upper S Sft Seqb Hadj Habs Hsqrt Hreal bs cols naggr id B q0). Qed.
+End NullSpaceQR.
+
+(* the hypotheses are satisfiable: closed instances at the real numbers of the standard library with the
+   true square root (the axioms of Reals are printed) *)
+Theorem C04_tentative_qr_reproduces_R (bs cols naggr : nat) (id : list Z) (B : mat (S:=RS)) (q0 : vec RS) k c :
+  0 < cols -> c < cols -> k < length id -> (0 <= zget id k)%Z ->
+  let i := Nat.div (Z.to_nat (zget id k)) bs in
+  i < Nat.div naggr bs ->
+  cols <= length (members bs id i) ->
+  let PB := tentative_prolongation_qr bs cols naggr id B q0 in
+  ns_apply RS cols (snd PB) (nth k (rows (fst PB)) []) c = mentry B k c.
+Proof. exact (tentative_qr_reproduces_R bs cols naggr id B q0 k c). Qed.
+Print Assumptions C04_tentative_qr_reproduces_R.
+
+Theorem C04_tentative_qr_orthonormal_R (bs cols naggr : nat) (id : list Z) (B : mat (S:=RS)) (q0 : vec RS) :
+  (forall i, i < Nat.div naggr bs -> cols <= length (members bs id i)) ->
+  let P := fst (tentative_prolongation_qr bs cols naggr id B q0) in
+  forall j1 j2, j1 < ncols P -> j2 < ncols P ->
+    sumn (fun k => mget P k j1 * mget P k j2) (nrows P) = if Nat.eqb j1 j2 then s1 else s0.
+Proof. exact (tentative_qr_orthonormal_R bs cols naggr id B q0). Qed.
+Print Assumptions C04_tentative_qr_orthonormal_R.
+
+(* non-vacuity over the exact rationals: two aggregates of three rows, one removed row, two near-null-space
+   vectors with perfect-square norms (the pseudo-root of QcS is exact on them): every aggregate is large
+   enough, P * B_coarse = B, P^T P = I, 4 coarse columns, the removed row of P is empty *)
+Example C04_tentative_qr_nonvacuous : ns_ex_check = true.
+Proof. exact ns_ex_check_true. Qed.
+
+(* ==================================================================== 7. smoothed_aggr_emin: the dense formulas
+   (EminProofs.v, EminProofs2.v).  Full statement of section 3b, now proved for the model:
+     Omega_j = <(A_F P_t)_j, (A_F D^-1 A_F P_t)_j> / <(A_F D^-1 A_F P_t)_j, (A_F D^-1 A_F P_t)_j>
+     P = P_t - D^-1 A_F P_t Omega,   R = P_t^T - Omega P_t^T A_F D^-1
+   (emin_P_spec / emin_R_spec of Coarsen.v) for EVERY P_t with strictly sorted rows and EVERY flag array,
+   under the guards the code relies on: every row of A stores its diagonal exactly once and the flags cover
+   the row (emin_regular: otherwise the comment "if P(i,j) != 0 then AP(i,j) != 0" in the source is false and
+   entries of P_t are lost), adjoint = identity, product() in its spgemm_saad branch (<= 16 threads).
+   Only ring laws are used about 1/x. *)
+Section EminField.
+Variable S : Scalar.
+Hypothesis Sft : Sfield S.
+Hypothesis Seqb : seqb_spec S.
+Hypothesis Hadj : forall x : S, sadj x = x.
+
+Theorem C04_emin_formulas nt (A : crs S) (st : flags) (Pt : crs S) :
+  nt <= 16 -> wf A = true -> ncols A = nrows A -> emin_regular A st = true ->
+  nrows Pt = nrows A -> forallb sorted_strict (rows Pt) = true ->
+  let fd := emin_filter A st in
+  let po := emin_interpolation nt (fst fd) (snd fd) Pt in
+  let P := fst po in
+  let R := emin_restriction nt (fst fd) (snd fd) Pt (snd po) in
+  forall i j, i < nrows A -> j < ncols Pt ->
+    mget P i j = emin_P_spec A st Pt i j /\ mget R j i = emin_R_spec A st Pt j i.
+Proof. exact (emin_formulas_hold S Sft Hadj nt A st Pt). Qed.
+
+(* transfer_operators() of the policy, block_size = 1 *)
+Theorem C04_emin_transfer_formulas nt (eps2 : S) (A : crs S) junk P R :
+  emin_transfer nt eps2 1 A junk = TrOk P R ->
+  exists count id st,
+    plain_aggregates eps2 A junk = AggOk count id st /\
+    (nt <= 16 -> wf A = true -> ncols A = nrows A -> emin_regular A st = true ->
+     let Pt := tentative_prolongation count id in
+     forall i j, i < nrows A -> j < count ->
+       mget P i j = emin_P_spec A st Pt i j /\ mget R j i = emin_R_spec A st Pt j i).
+Proof. exact (emin_transfer_formulas_scalar S Sft Hadj nt eps2 A junk P R). Qed.
+
+(* any block_size *)
+Theorem C04_emin_transfer_formulas_block nt (eps2 : S) bs (A : crs S) junk P R :
+  emin_transfer nt eps2 bs A junk = TrOk P R ->
+  exists count id st,
+    pointwise_aggregates eps2 bs 0 A junk = AggOk count id st /\
+    (nt <= 16 -> wf A = true -> ncols A = nrows A -> emin_regular A st = true -> length id = nrows A ->
+     let Pt := tentative_prolongation count id in
+     forall i j, i < nrows A -> j < count ->
+       mget P i j = emin_P_spec A st Pt i j /\ mget R j i = emin_R_spec A st Pt j i).
+Proof. exact (emin_transfer_formulas S Sft Hadj nt eps2 bs A junk P R). Qed.
+
+(* the boolean oracle o.emin_formula evaluated on the implementation's (P, R) is implied by the formulas:
+   what the harness checks on the real code is the statement proved for the model *)
+Theorem C04_emin_oracle_complete nt (A : crs S) (st : flags) (Pt : crs S) :
+  nt <= 16 -> wf A = true -> ncols A = nrows A ->
+  nrows Pt = nrows A -> forallb sorted_strict (rows Pt) = true ->
+  let fd := emin_filter A st in
+  let po := emin_interpolation nt (fst fd) (snd fd) Pt in
+  emin_formula_ok A st Pt (fst po) (emin_restriction nt (fst fd) (snd fd) Pt (snd po)) = true.
+Proof. exact (emin_oracle_complete S Sft Seqb Hadj nt A st Pt). Qed.
+End EminField.
+
+Theorem C04_emin_transfer_formulas_Qc nt (eps2 : QcS) (A : crs QcS) junk P R :
+  emin_transfer nt eps2 1 A junk = TrOk P R ->
+  exists count id st,
+    plain_aggregates eps2 A junk = AggOk count id st /\
+    (nt <= 16 -> wf A = true -> ncols A = nrows A -> emin_regular A st = true ->
+     let Pt := tentative_prolongation count id in
+     forall i j, i < nrows A -> j < count ->
+       mget P i j = emin_P_spec A st Pt i j /\ mget R j i = emin_R_spec A st Pt j i).
+Proof. exact (C04_emin_transfer_formulas QcS QcS_field (fun x => eq_refl) nt eps2 A junk P R). Qed.
+Print Assumptions C04_emin_transfer_formulas_Qc.
+
+(* non-vacuity: the 1-D Neumann Laplacian on 3 points is regular, the policy returns P and R *)
+Example C04_emin_nonvacuous :
+  match pointwise_aggregates (qc 1 16) 1 0 lap3 (repeat (qc 0 1) 3), emin_transfer 1 (qc 1 16) 1 lap3 (repeat (qc 0 1) 3) with
+  | AggOk count id st, TrOk P R => wf lap3 = true /\ emin_regular lap3 st = true /\ count = 1 /\ nrows P = 3
+  | _, _ => False
   end.
 Proof. vm_compute. repeat split; reflexivity. Qed.
